@@ -28,7 +28,7 @@ Stored(r) == [r EXCEPT !.g = NormGeom(r.g)]
 (* value pools (indices; the harness holds the actual values): FloatExact[v] = the decimal expansion has <= 10 places *)
 FloatExact == <<TRUE, FALSE, TRUE, TRUE, FALSE>>
 NFloats == 5
-NNames == 4
+NNames == 7
 Ints == {0, -1, 2147483647, -999999999}
 
 CONSTANT Records       \* kind -> set of records that can be written to a file of that kind
